@@ -123,11 +123,20 @@ class Inliner:
 
     # ---- plain helper
     def _inlinable(self, g, chain):
-        if g is None or g.id in chain or self.keep(g) or g.n > self.max_blocks:
+        if g is None or g.id in chain or g.n > self.max_blocks or g.is_closure:
             return False
-        if g.is_closure:
+        if self.keep(g) and not self._trivial_ctor(g):
             return False
         return True
+
+    @staticmethod
+    def _trivial_ctor(g):
+        """`fn new(a, b) -> Self { Self(a, b) }`: pure data, always read through"""
+        if g.n > 2 or g.live_calls or g.arg_count == 0:
+            return False
+        aggs = [rv for bb, i, pl, rv in g.assigns() if rv['k'] == 'agg' and not pl['p'] and pl['l'] == 0]
+        others = [rv for bb, i, pl, rv in g.assigns() if rv['k'] not in ('agg', 'use')]
+        return len(aggs) == 1 and not others and aggs[0].get('agg') == 'adt'
 
     def _copy_in(self, j, g, chain, origin_of_block, ret_to=None):
         """append a renumbered copy of g's locals and blocks; returns (local offset, block offset, [copied return block ids]).
@@ -138,10 +147,13 @@ class Inliner:
         lmap = (lambda l: l + offL) if ret_to is None else (lambda l: ret_to if l == 0 else l + offL)
         bmap = lambda b: b + offB
         rets = []
+        bo = j.setdefault('block_origin', {})
+        gbo = g.j.get('block_origin') or {}
         for i, blk in enumerate(g.j['blocks']):
             nb = _remap(blk, lmap, bmap)
             j['blocks'].append(nb)
             origin_of_block[offB + i] = set(chain) | {g.id}
+            bo[offB + i] = tuple(gbo.get(i, (getattr(g, 'orig_id', g.id), i)))
             if nb['term']['k'] == 'return' and not nb['cleanup']:
                 rets.append(offB + i)
         j['inlined'].append(g.name)
@@ -149,7 +161,14 @@ class Inliner:
 
     def _inline_helper(self, j, b, c, chain, origin_of_block):
         g = self.prog.by_id.get(c.ruid) if c.ruid else None
-        if not self._inlinable(g, chain):
+        if g is None:
+            # `x.into()` / `x.try_into()`: std's blanket impl forwards to the local From / TryFrom impl
+            g = self.prog.conv_target_of(c)
+            if g is not None and (g.id in chain or g.n > self.max_blocks):
+                g = None
+            if g is None:
+                return False
+        elif not self._inlinable(g, chain):
             return False
         blk = j['blocks'][b]
         t = blk['term']
